@@ -162,7 +162,13 @@ func (w *kWorld) apply(op string) *kStep {
 		pl := kPayloads[w.nenc%len(kPayloads)]
 		w.nenc++
 		st.Payload = append([]byte(nil), pl...)
-		arg := append([]byte(nil), pl...)
+		// the caller's payload sits in a larger scratch buffer (spare capacity behind it), as append-built slices do
+		scratch := make([]byte, len(pl)+96)
+		for i := range scratch {
+			scratch[i] = 0x5A
+		}
+		arg := scratch[:len(pl):len(scratch)]
+		copy(arg, pl)
 		st.Panic = safe(func() {
 			s, done := w.session(kf, st.LongLived, st.Part)
 			defer done()
@@ -178,6 +184,16 @@ func (w *kWorld) apply(op string) *kStep {
 		})
 		if !bytes.Equal(arg, st.Payload) && st.Panic == "" && st.Err == nil {
 			st.Err = fmt.Errorf("C01: encrypt modified the caller's payload")
+		}
+		if st.Panic == "" && st.Err == nil && st.Rec != nil {
+			// the caller goes on using its buffer: nothing of that may show up in (or change) the record it was handed
+			before := append([]byte(nil), st.Rec.DRR.Data...)
+			for i := range scratch {
+				scratch[i] = 0xC3
+			}
+			if !bytes.Equal(before, st.Rec.DRR.Data) {
+				st.Err = fmt.Errorf("C01: the returned record shares storage with the caller's payload buffer (writing to the buffer after Encrypt returned changed DataRowRecord.Data)")
+			}
 		}
 		if st.Rec != nil {
 			w.recs[st.Part] = append(w.recs[st.Part], st.Rec)
